@@ -546,11 +546,12 @@ register("C09", lean=["Khttp.Props.C09", "Khttp.Props.C09Handle", "Khttp.Props.C
          explanation="Theorems (Props/C09): exact characterisation of the keep-alive decision of handle_one_request (handler path, hook-Drop path, rejected heads 400/431 with close, peer EOF), the close flag of an accepted request = "
                      "'some Connection field has a comma-separated element equal to close ignoring case and surrounding whitespace' (via C04 + C19), handle_connection stops at the first closing call and reads nothing afterwards, "
                      "fuel adequacy. Tie: control skeleton of handle_one_request / handle_connection (decide) + CONN correspondence. Oracle: is the next request answered or is the connection at EOF, per history.")
-register("C05", lean=["Khttp.Props.C05"], soft_lean=["Khttp.Props.C07BodySkeleton"], run=run_c05,
+register("C05", lean=["Khttp.Props.C05", "Khttp.Props.C05Numeral"], soft_lean=["Khttp.Props.C07BodySkeleton"], run=run_c05,
          rule="CONN cases: the full product {14 Content-Length variants (absent, valid, OWS-padded, zero-padded, signed, non-numeric, list-valued, duplicated equal/different, overflow, empty, hex)} x {14 Transfer-Encoding variants "
               "(absent, chunked, CHUNKED, OWS-padded, gzip+chunked, chunked+gzip, gzip, split over lines both ways, trailing comma, empty, xchunked, repeated)} x field order x {body in the same / a later segment}, each followed by a probe request "
               "whose answer reveals where the server looked for the next request (quick: a random 55% of the cells). distinct_nontrivial = distinct cells with at least two framing fields.",
          assumptions=["field values restricted to RFC field-value bytes", "HTTP/1.1 requests"],
          explanation="Theorems (Props/C05): the header collection's framing verdict and the body reader chosen by from_request agree with the RFC 9112 6.3 evaluation framingOf of the field lines (C05_decision both directions, "
                      "C05_reader_choice: chunked wins over Content-Length); heads with invalid framing are never accepted and end in 400 + close with no body byte read, for every segmentation (C05_invalid_framing_400); "
-                     "OWS / case invariance. Tie: CONN + HDR correspondence. Oracle: independent Python RFC table, probe request reveals the position of the next request.")
+                     "OWS / case invariance. Props/C05Numeral: every zero-padded spelling of n < 2^64 with any number of leading zeros is read as n (no width limit), any non-digit byte anywhere in the trimmed value and any value >= 2^64 (padded or not) is rejected. "
+                     "Tie: CONN + HDR correspondence incl. the Content-Length numeral grid (every width 1..48, near-digit bytes at every position of lengths 1..25, the 2^64 edge) and the guided-generation corpus of header operations. Oracle: independent Python RFC table, probe request reveals the position of the next request.")
